@@ -11,7 +11,7 @@
 (* observations).  What the native operations must do is C03-C14's         *)
 (* business; here only equality and the buffer discipline are judged.      *)
 (***************************************************************************)
-EXTENDS Naturals, Sequences, FiniteSets, TLC, Json, IOUtils
+EXTENDS History, Json, IOUtils
 
 Rec == ndJsonDeserialize(IOEnv.TRACE)
 VARIABLES l, done
@@ -19,10 +19,10 @@ Init == l \in 1..Len(Rec) /\ done = 0
 Once == done = 0 /\ done' = 1 /\ l' = l
 Report(tag, why) == PrintT("@@" \o tag \o "|" \o ToString(l) \o "|" \o why)
 
-Fields(r) == DOMAIN r \ {"mem"}
+FieldsOf(r) == DOMAIN r \ {"mem"}
 FirstDiff(c, n) ==
-  IF Fields(c) # DOMAIN n THEN "different shape"
-  ELSE IF \E f \in Fields(c) : c[f] # n[f] THEN CHOOSE f \in Fields(c) : c[f] # n[f]
+  IF FieldsOf(c) # DOMAIN n THEN "different shape"
+  ELSE IF \E f \in FieldsOf(c) : c[f] # n[f] THEN CHOOSE f \in FieldsOf(c) : c[f] # n[f]
   ELSE ""
 
 C15Why(e) ==
@@ -36,6 +36,10 @@ C15Why(e) ==
        IF d # "" THEN "table entry '" \o e.c.op \o "' differs from the native operation in: " \o d
        ELSE IF "mem" \in DOMAIN e.c /\ ~e.c.mem THEN "table entry '" \o e.c.op \o "' wrote outside the caller's buffer or past what it reports"
        ELSE IF e.c.ret = 0 - 1 /\ e.c.op \in {"add", "rename", "namefromstr"} /\ e.c.err = "" THEN "failure without a description"
+       \* and, whatever the native side did: the object a hook leaves behind is coherent (C08's predicate on the C side)
+       ELSE IF "state" \in DOMAIN e.c /\ Len(e.c.state.bytes) >= 12 /\ Structural(e.c.state.bytes) /\ "oq" \in DOMAIN e.c.state.view
+               /\ ViewWhy(e.c.state.view, e.c.state.bytes) # ""
+            THEN "after table entry '" \o e.c.op \o "' " \o ViewWhy(e.c.state.view, e.c.state.bytes)
        ELSE ""
 C15(e) == LET w == C15Why(e) IN
           /\ PrintT("@@FACT|" \o ToString(l) \o "|" \o (IF e.k = "pair" THEN e.c.op \o "|" \o (IF "ret" \in DOMAIN e.c THEN ToString(e.c.ret) ELSE "-") ELSE e.k \o "|-"))
